@@ -71,12 +71,6 @@ def run_property(pid, tier, seed):
             ctx = Ctx(pid, model, tier)
             reg[pid](ctx)
             ctxs.append(ctx)
-        # instance floors: a rule that matches (almost) nothing must not pass vacuously
-        for ctx in ctxs:
-            for rid, floor in expect.get('floors', {}).items():
-                got = ctx.counts.get(rid, 0)
-                if got < floor:
-                    raise AnalysisBroken('rule %s matched %d instances, fewer than the %d confirmed by hand' % (rid, got, floor))
     except AnalysisBroken as ex:
         print('ANALYSIS-BROKEN property=%s: %s' % (pid, ex))
         return 2
@@ -135,6 +129,14 @@ def run_property(pid, tier, seed):
     for f in unlisted:
         print('%s: [%s] %s' % (f.site, f.rule, f.msg))
     print('%s: %d rule instances, %d violations, %.1fs' % (pid, nob, len(unlisted), wall))
+    if not unlisted:
+        # instance floors: a rule that matches (almost) nothing must not pass vacuously
+        for c_ in ctxs:
+            for rid, floor in expect.get('floors', {}).items():
+                got = c_.counts.get(rid, 0)
+                if got < floor:
+                    print('ANALYSIS-BROKEN property=%s: rule %s matched %d instances, fewer than the floor %d recorded for the confirmed tree' % (pid, rid, got, floor))
+                    return 2
     if unlisted:
         with open(viol_file, 'w') as fh:
             json.dump({'property': pid, 'violations': [{'rule': f.rule, 'site': f.site, 'message': f.msg, 'detail': jsonable(f.detail)} for f in unlisted]}, fh, indent=1)
